@@ -162,6 +162,31 @@ pub fn drive(args: &[String]) -> i32 {
             }
             continue;
         }
+        if c.get("kernel").and_then(|k| k.as_str()) == Some("btpeh") {
+            // BTPE region 2 for huge n with a moderate mode: as the default kernel below, proposal reported as y - m
+            let n: u64 = c["n"].as_str().unwrap().parse().unwrap();
+            let m: u64 = c["m"].as_str().unwrap().parse().unwrap();
+            let pr: f64 = c["p"].as_str().unwrap().parse().unwrap();
+            let res = guarded(|| -> Vec<Value> {
+                let d = Binomial::new(n, pr).expect("constructor");
+                let mut r = ScriptRng::new(vec![0, 0], 0);
+                let mut call = |w1: u64, w2: u64| -> (i64, u64) { r.prefix[0] = w1; r.prefix[1] = w2; r.pos = 0; r.state = 11 ^ w2; r.n32 = 0; r.n64 = 0; r.nbytes = 0;
+                    let o = d.sample(&mut r); ((o as i128 - m as i128).clamp(-1 << 30, 1 << 30) as i64, r.words()) };
+                let mut evs = vec![];
+                for (k, a) in c["r2"].as_array().unwrap().iter().enumerate() {
+                    let w1: u64 = a.as_str().unwrap().parse().unwrap();
+                    let (y0, nw0) = call(w1, 0);
+                    let t = first_true(0, ALL, |w| call(w1, w as u64).1 != 2);
+                    evs.push(json!({"op": "btpe2h", "case": id, "k": k + 1, "dy": y0, "accepted_at_zero": nw0 == 2, "T": l14(t), "show": [format!("{:.12}", t as f64 / 18446744073709551616.0)]}));
+                }
+                evs
+            });
+            match res {
+                Ok(evs) => for mut e in evs { e["res"] = json!("Ok"); out.push(e.to_string()); },
+                Err(p) => out.push(json!({"op": "btpe2h", "case": id, "k": 0, "res": format!("Panic: {}", p), "dy": 0, "accepted_at_zero": false, "T": [0]}).to_string()),
+            }
+            continue;
+        }
         if c.get("kernel").and_then(|k| k.as_str()) == Some("cheng") {
             // Cheng BB / BC (Beta<f64>): first uniform word j 2^60 (u1 = j/16 + 2^-53), accepting second words are a prefix
             let a: f64 = c["a"].as_str().unwrap().parse().unwrap(); let b: f64 = c["b"].as_str().unwrap().parse().unwrap();
